@@ -52,6 +52,18 @@ func newUDPBMC() (*udpBMC, error) {
 			return ipmiRsp(netfn, cmd, 0, nil)
 		case netfn == 0x06 && cmd == 0x37:
 			return ipmiRsp(netfn, cmd, 0, make([]byte, 16))
+		case netfn == 0x06 && cmd == 0x54 && len(data) == 3:
+			// Get Channel Cipher Suites: suites 8, 3, 17 with an OEM record in between — 23 bytes, i.e. two pages
+			all := []byte{0xC0, 8, 2, 0x42, 0x81, 0xC1, 0x80, 0x2a, 0x2b, 0x2c, 1, 0x41, 0x81, 0xC0, 3, 1, 0x41, 0x81, 0xC0, 17, 3, 0x44, 0x81}
+			lo := int(data[2]&0x3f) * 16
+			if lo > len(all) {
+				lo = len(all)
+			}
+			hi := lo + 16
+			if hi > len(all) {
+				hi = len(all)
+			}
+			return ipmiRsp(netfn, cmd, 0, append([]byte{0x01}, all[lo:hi]...))
 		}
 		return ipmiRsp(netfn, cmd, 0xC1, nil)
 	}
@@ -196,7 +208,7 @@ func doTime(a []string) (string, string) {
 	u.arm(fault, T)
 	// one call under the fault; with a fifth argument "again" the SAME call is then made a second time on the same
 	// connection / session while the fault persists (a failed call must not make the next one report success)
-	once := func() (string, bool, time.Duration) {
+	once1 := func() (string, bool, time.Duration) {
 		ctx, cancel := context.WithDeadline(context.Background(), time.Now().Add(D))
 		defer cancel()
 		start := time.Now()
@@ -209,6 +221,8 @@ func doTime(a []string) (string, string) {
 				SessionOpts:  bmc.SessionOpts{Username: fixedUser, Password: []byte(fixedPass), MaxPrivilegeLevel: ipmi.PrivilegeLevelAdministrator},
 				CipherSuites: []ipmi.CipherSuite{ipmi.CipherSuite3},
 			})
+		case "hsd": // the default preference list: discovery (two pages) precedes the three exchanges
+			_, err = t.NewSession(ctx, &bmc.SessionOpts{Username: fixedUser, Password: []byte(fixedPass), MaxPrivilegeLevel: ipmi.PrivilegeLevelAdministrator})
 		case "cmd":
 			_, err = sess.GetDeviceID(ctx)
 		case "close":
@@ -223,10 +237,29 @@ func doTime(a []string) (string, string) {
 		}
 		return res, elapsed > D+timeAllowance, elapsed
 	}
+	// a call that ignores its context may never return: give up on it 5 s after its deadline (the goroutine is left behind)
+	once := func() (string, bool, time.Duration) {
+		type r3 struct {
+			res     string
+			late    bool
+			elapsed time.Duration
+		}
+		ch := make(chan r3, 1)
+		go func() {
+			a, b, c := once1()
+			ch <- r3{a, b, c}
+		}()
+		select {
+		case r := <-ch:
+			return r.res, r.late, r.elapsed
+		case <-time.After(D + 5*time.Second):
+			return "none", true, D + 5*time.Second
+		}
+	}
 	res, late, elapsed := once()
 	// a reply that arrives after its own attempt timed out is still a valid response to the command when a LATER attempt
 	// of a session-less call reads it (no sequence numbers outside a session): success and error are both right then
-	if strings.HasPrefix(fault, "late") && res == "ok" && (call == "sl" || call == "hs" || call == "sdr") {
+	if strings.HasPrefix(fault, "late") && res == "ok" && (call == "sl" || call == "hs" || call == "hsd" || call == "sdr") {
 		res = "err"
 	}
 	if len(a) > 4 && a[4] == "again" {
@@ -253,7 +286,7 @@ func doTime(a []string) (string, string) {
 }
 
 func genTime(g *genCtx) {
-	calls := []string{"sl", "hs", "cmd", "close", "sdr"}
+	calls := []string{"sl", "hs", "hsd", "cmd", "close", "sdr"}
 	faults := []string{"blackhole", "late", "garbage", "busy", "trunc"}
 	ratios := [][2]int{{100, 300}, {1000, 200}, {50, 0}}
 	if g.thorough() {
@@ -262,7 +295,7 @@ func genTime(g *genCtx) {
 	var ops []Op
 	for _, c := range calls {
 		for _, f := range faults {
-			if f == "trunc" && c != "hs" && c != "sl" {
+			if f == "trunc" && c != "hs" && c != "hsd" && c != "sl" {
 				continue
 			}
 			for _, r := range ratios {
@@ -270,9 +303,9 @@ func genTime(g *genCtx) {
 			}
 			// the fault at every later step of the multi-step calls (handshake: 3 exchanges; SDR retrieval: repository
 			// info, reservation, header / body reads, final repository info)
-			steps := map[string][]int{"hs": {1, 2}, "sdr": {1, 2, 3, 4, 6, 8}}[c]
+			steps := map[string][]int{"hs": {1, 2}, "hsd": {1, 2, 3, 4}, "sdr": {1, 2, 3, 4, 6, 8}}[c]
 			for _, k := range steps {
-				if f == "trunc" && c != "hs" {
+				if f == "trunc" && c != "hs" && c != "hsd" {
 					continue
 				}
 				for _, r := range [][2]int{{100, 300}, {60, 150}} {
